@@ -78,7 +78,9 @@ def oracle(prog, obs, impl):
                         if k1 and k1 > 0:
                             x = (num / tv - conc_den(subs, before, target[2])) / k1
                             newvol = before['vol'] + x * histcheck.measure(subs, one, 'L') * 10**6
-                            if x > 0 and newvol <= before['max'] * (1 - F(1, 10**4)):
+                            if x > 0 and newvol == before['max'] and not prog.get('tol_k'):
+                                fails.append((i, f"dilute to {dsl.conc_str(c)} fills the container exactly ({float(newvol)!r} uL of {float(before['max'])!r} uL) but was refused: {o['exc']} {o.get('msg')}"))
+                            elif x > 0 and newvol <= before['max'] * (1 - F(1, 10**4)):
                                 fails.append((i, f"dilute to {dsl.conc_str(c)} needs {float(newvol)!r} uL of the container's {float(before['max'])!r} uL but was refused: {o['exc']} {o.get('msg')}"))
                 elif tv > cur * (1 + F(1, 10**4)) and o['exc'] != 'ValueError' and \
                         conc_den(subs, {'cont': {op['solvent']: F(1)}, 'vol': F(0), 'max': None, 't': 'c'}, target[2]):
@@ -132,7 +134,24 @@ def make_cases(chk):
                 rel = rng.choice([1.2, 1.5, 3, 0.6, 0.9, 0.98, 0.995])     # a target just below the current quantity is as unreachable as a far one
                 g.fill(target='c', rel=rel, sig=4 if rel > 0.95 and rel < 1 else 2)
         gens.append(g)
-    return gen.twin_lot_cases(chk.seed, 'fill') + gens
+    return gen.twin_lot_cases(chk.seed, 'fill') + exact_capacity_dilutions(chk) + gens
+
+
+def exact_capacity_dilutions(chk):
+    """directed: dilutions that fill the container exactly (short decimals: the diluted volume equals the capacity in Q): accepted;
+    and the same in a container one per cent smaller: refused"""
+    q = lambda v, p, b: {'v': v, 'p': p, 'b': b}
+    out = []
+    for i, (cap, v1, v2, target, tight) in enumerate((('100', '25', '25', '0.25', '99'), ('200', '50', '50', '0.25', '198'), ('1000', '100', '400', '0.1', '990'),
+                                                    ('2000', '500', '500', '0.25', '1980'), ('300', '30', '70', '0.1', '297'))):
+        g = gen.Gen(random.Random(chk.seed * 100003 + 117000 + i), nsubs=9)
+        conc = {'v': target, 'np': '', 'nb': 'L', 'dp': '', 'db': 'L'}
+        for mx, tag in ((cap, 'boundary:dilute-to-capacity'), (tight, 'dilute:over-capacity')):
+            op = {'op': 'newc', 'out': g.fresh(), 'name': g.name(), 'max': q(mx, 'u', 'L'), 'init': [(2, q(v1, 'u', 'L')), (1, q(v2, 'u', 'L'))]}
+            if g.emit(op, 'capacity:newc')['ok']:
+                g.emit({'op': 'dilute', 'v': op['out'], 'solute': 2, 'c': conc, 'solvent': 1, 'out': g.fresh()}, tag)
+        out.append(g)
+    return out
 
 
 def add_dilute(g, rng, keep=0.3, named=0.4):
